@@ -132,7 +132,20 @@ def eval_asarray(case):
     sig_pre = f'asarray/{form}'
     w, a = outcome_of(lambda: darr.asarray(path, x, dtype=dtarg, chunklen=chunklen, accessmode='r'))
     klass = (form, layout if form == 'ndarray' else '-', len(shape), n == 0, dtarg is not None, cl is not None)
-    if w == 'raises':
+    # A nested sequence with a dtype argument: NumPy offers two readings of "np.asarray(x) cast to dtype": the one-step
+    # np.asarray(x, dtype) - which refuses Python ints that do not fit (OverflowError) and converts big ints exactly - and
+    # the two-step np.asarray(x).astype(dtype) - which wraps, and goes through float64 for ints beyond int64. Where the two
+    # disagree either one is accepted; the property does not say what a refused value leaves behind.
+    ambiguous = False
+    if dtarg is not None and form in ('list', 'tuple'):
+        w1, ref1 = outcome_of(lambda: np.asarray(x, dtype=dtarg))
+        if w1 == 'raises':
+            ambiguous = (w == 'raises')
+        elif not payload.same_bits(ref1, ref) and w == 'returns' and payload.same_bits(a[:], ref1):
+            ref = ref1
+    if ambiguous:
+        klass = ('ambiguous-reference',) + klass
+    elif w == 'raises':
         V.append(viol('create', sig_pre, 'call', f'raises {exc_class(a)}',
                       f'{what_pre} raises {a!r}', empty=(n == 0), has_dtype=dtarg is not None))
     else:
@@ -234,7 +247,7 @@ def eval_create(case):
         ref[...] = FILLFUNCS[ff](grid)
         kw = {'fillfunc': FILLFUNCS[ff]}
     else:
-        fv = {'nan': float('nan')}.get(fill, fill)
+        fv = {'nan': float('nan'), 'negzero': -0.0, 'npzero': np.float32(0.0), 'false': False}.get(fill, fill)
         ref = np.full(shape, 0 if fv is None else fv, dtype=dt)
         kw = {'fill': fv}
     what_pre = f'create_array(shape={shape}, dtype={dt.str}, chunklen={cl}, fill={fill}, fillfunc={ff})'
@@ -341,7 +354,7 @@ def build_cases(tier):
         dt = np.dtype(c['dtype'])
         if c['fill'] is not None and c['fillfunc'] is not None:
             return False
-        if c['fill'] == 'nan' and dt.kind not in 'fc':
+        if c['fill'] in ('nan', 'negzero') and dt.kind not in 'fc':
             return False
         if c['fill'] in (-1.5,) and dt.kind == 'u':
             return False
@@ -351,10 +364,11 @@ def build_cases(tier):
             return False
         return True
     A(product({'sub': ['create'], 'shape': [list(s) for s in SHAPES], 'dtype': cdts, 'chunklen': CHUNKLENS,
-               'fill': [None, 0, 7, -1.5, 'nan'], 'fillfunc': [None, 'i', '2i', 'i12', 'ii7']}, valid=okc))
+               'fill': [None, 0, 7, -1.5, 'nan', 'negzero', 'npzero', 'false'], 'fillfunc': [None, 'i', '2i', 'i12', 'ii7']},
+              valid=okc))
     A(product({'sub': ['create'], 'temp': [True], 'shape': [[5], [3, 2]], 'dtype': ['<f8', '>i2'], 'chunklen': [None, 2],
                'fill': [None, 7], 'fillfunc': [None, 'i']}, valid=okc))
-    subs.append(f'S6: create_array/create_temparray: 13 shapes x {len(cdts)} dtypes x 6 chunklens x 5 fills + 4 fill functions')
+    subs.append(f'S6: create_array/create_temparray: 13 shapes x {len(cdts)} dtypes x 6 chunklens x 8 fills (incl. -0.0, a NumPy zero, False) + 4 fill functions')
     A(product({'sub': ['reject'], 'kind': list(reject_inputs()), 'form': ['ndarray', 'list', 'generator', 'empty']}))
     subs.append('S7: 8 unsupported element types x {ndarray, list, first chunk of a generator, empty ndarray}')
     return cases, subs
